@@ -368,7 +368,7 @@ type c19Inst struct {
 var c19DirSeq int64
 
 // small buffers: the default 4 MiB write buffer dominates the cost of a fresh store
-var c19Opts = &opt.Options{WriteBuffer: 64 << 10, DisableBlockCache: true, DisableBufferPool: true}
+var c19Opts = &opt.Options{WriteBuffer: 8 << 10, DisableBlockCache: true}
 
 func c19Open(useDir bool) *c19Inst {
 	in := &c19Inst{}
